@@ -36,10 +36,29 @@ from .world import REF_VERTS, Side, World, element_leaves, facet_vertices
 MAX_UBOUND = 22
 
 
+def _unnest(a):
+    """Object array of python scalars: unwraps elements that are themselves 0-d arrays (seval stores the 0-d
+    object array of a scalar geometric quantity as an *element* of the jet array)."""
+    a = np.asarray(a, dtype=object).view(np.ndarray)
+    out = np.empty(a.shape, dtype=object)
+    for idx in np.ndindex(a.shape):
+        v = a[idx]
+        while isinstance(v, np.ndarray):
+            v = v.reshape(()).view(np.ndarray)[()]
+        out[idx] = v
+    return out
+
+
 class ExactBackend(QBackend):
     """Fractions, plus square roots of rational squares (geometry of the hand-made manifold cells)."""
 
     name = "fraction-exact-sqrt"
+
+    def det(self, a):
+        return super().det(_unnest(a))
+
+    def inv(self, a):
+        return super().inv(_unnest(a))
 
     def fn(self, name, *params):
         if name == "sqrt":
@@ -47,7 +66,7 @@ class ExactBackend(QBackend):
         return super().fn(name, *params)
 
     def _sqrt(self, x):
-        x = plain(x)
+        x = _unnest(x)
         out = np.empty(x.shape, dtype=object)
         for idx in np.ndindex(x.shape):
             v = Fraction(x[idx])
@@ -255,6 +274,20 @@ class OracleError(Exception):
     pass
 
 
+def _exact(v):
+    while isinstance(v, np.ndarray):
+        v = v.reshape(()).view(np.ndarray)[()]
+    if isinstance(v, Fraction):
+        return v
+    if isinstance(v, (int, np.integer)):
+        return Fraction(int(v))
+    if isinstance(v, (float, np.floating)):
+        return Fraction(float(v))  # a float is a dyadic rational: exact
+    if isinstance(v, (complex, np.complexfloating)) and complex(v).imag == 0:
+        return Fraction(complex(v).real)
+    raise OracleError(f"value of type {type(v).__name__} in the exact evaluation")
+
+
 class DegreeTooHigh(Exception):
     pass
 
@@ -274,7 +307,7 @@ def true_degree(e, probes, B, stats=None, memo=None):
         for k in ks:
             set_point(p.w, p.line.at(k))
             r = S(e, p.w, B)
-            flat = [Fraction(v) for v in plain(r.arr).ravel()]
+            flat = [_exact(v) for v in plain(r.arr).ravel()]
             if seqs is None:
                 seqs = [[] for _ in flat]
             for q, v in zip(seqs, flat):
